@@ -219,6 +219,16 @@ def _term_measure(t, lit_fn, unint_fn):
     return unint_fn(t)
 
 
+def _tok_measure(p, which):
+    """A token's measure: what its creator stated, otherwise an UNKNOWN (fresh, unconstrained) value - never a silent default."""
+    if which not in p.fields:
+        nm = fresh_name(f"tok_{p.tag}_{which}")
+        p.fields[which] = z3.Bool(nm) if which == "ascii" else z3.Int(nm)
+        if which == "low":
+            pass
+    return p.fields[which]
+
+
 def rope_bal_low(r):
     """(bal, low) of a rope as z3 terms, by the homomorphism laws."""
     bal = z3.IntVal(0)
@@ -233,7 +243,7 @@ def rope_bal_low(r):
             pb = z3.If(p.cp == 123, 1, z3.If(p.cp == 125, -1, 0))
             pl = z3.If(p.cp == 125, -1, 0)
         elif isinstance(p, Tok):
-            pb, pl = p.fields.get("bal", z3.IntVal(0)), p.fields.get("low", z3.IntVal(0))
+            pb, pl = _tok_measure(p, "bal"), _tok_measure(p, "low")
         else:
             pb = _term_measure(p, lambda x: z3.IntVal(lit_bal_low(x)[0]), m_bal)
             pl = _term_measure(p, lambda x: z3.IntVal(lit_bal_low(x)[1]), m_low)
@@ -253,7 +263,7 @@ def rope_ascii(r):
         elif isinstance(p, Chr):
             cs.append(z3.And(p.cp >= 0, p.cp <= 127))
         elif isinstance(p, Tok):
-            cs.append(p.fields.get("ascii", z3.BoolVal(True)))
+            cs.append(_tok_measure(p, "ascii"))
         else:
             cs.append(_term_measure(p, lambda x: z3.BoolVal(all(ord(ch) < 128 for ch in x)), m_ascii))
     return z3.And(*cs) if cs else z3.BoolVal(True)
